@@ -46,6 +46,11 @@ func runR13_4(c *Ctx, outer *R) {
 		}
 		// opened(fn): the slices a function with receiver L and index parameter I returns (non-nil results), looking
 		// through OpenValue(x) / a one-step accessor call on (L, I)
+		// guard alternatives under which the slices found so far are returned (conjunctions of canonical atoms, one
+		// per acyclic path, accumulated across nested accessors)
+		ctx := [][]gAtom{nil}
+		var guards [][]gAtom
+		exactAll := true
 		var opened func(fn *ssa.Function, bind map[*ssa.Parameter]cT, depth int) []cT
 		opened = func(fn *ssa.Function, bind map[*ssa.Parameter]cT, depth int) []cT {
 			ev := mk(fn)
@@ -65,11 +70,32 @@ func runR13_4(c *Ctx, outer *R) {
 				if isNilConst(v) {
 					continue
 				}
+				alts, exact := ev.exitAlts(ret.Block())
+				if !exact {
+					exactAll = false
+				}
+				saved := ctx
+				var combined [][]gAtom
+				for _, c0 := range saved {
+					for _, a := range alts {
+						combined = append(combined, append(append([]gAtom{}, c0...), a.atoms...))
+					}
+				}
+				ctx = combined
+				before := len(out)
+				nestedBefore := len(guards)
 				out = append(out, sliceOf(ev, v, opened, depth)...)
+				if len(out) > before && len(guards) == nestedBefore {
+					// the slice was produced at this level (no nested accessor recorded its own guards)
+					guards = append(guards, combined...)
+				}
+				ctx = saved
 			}
 			return out
 		}
 		acc := opened(af, nil, 0)
+		accGuards := guards
+		guards, ctx = nil, [][]gAtom{nil}
 		// the parser's argument of the recursive ParseValue
 		pev := mk(pf)
 		var visited []cT
@@ -103,8 +129,62 @@ func runR13_4(c *Ctx, outer *R) {
 			return out
 		}
 		va, vv := strs(acc), strs(visited)
-		if len(va) == 1 && len(vv) == 1 && va[0] == vv[0] {
-			r.OK(key, at.Pos(), "both are %s", va[0])
+		visGuards := guards
+		// the conditions under which the helper hands the slice out must be the same on both sides: a parser that
+		// skips (gets nil for) a field the accessor opens has not validated it
+		implies := func(from, to [][]gAtom) (bool, string) {
+			for _, a := range from {
+				f := an.newFacts()
+				opq := map[string]bool{}
+				for _, at := range a {
+					if at.kind == 'o' {
+						opq[at.s] = true
+					}
+					f.add(at)
+				}
+				f.saturate()
+				if f.unsat() {
+					continue
+				}
+				found := false
+				for _, b := range to {
+					all := true
+					for _, bt := range b {
+						if bt.kind == 'o' {
+							if !opq[bt.s] {
+								all = false
+							}
+						} else if !f.holds(bt) {
+							all = false
+						}
+					}
+					if all {
+						found = true
+						break
+					}
+				}
+				if !found {
+					var as []string
+					for _, at := range a {
+						as = append(as, an.atomStr(at))
+					}
+					return false, strings.Join(as, " and ")
+				}
+			}
+			return true, ""
+		}
+		guardsAgree, guardWhy := true, ""
+		if exactAll && len(accGuards) > 0 && len(visGuards) > 0 {
+			if ok, w := implies(accGuards, visGuards); !ok {
+				guardsAgree, guardWhy = false, fmt.Sprintf("%s opens the slice when {%s}, but %s is not handed it under that condition", pair.accessor, w, pair.parser)
+			} else if ok, w := implies(visGuards, accGuards); !ok {
+				guardsAgree, guardWhy = false, fmt.Sprintf("%s visits the slice when {%s}, but %s does not open it under that condition", pair.parser, w, pair.accessor)
+			}
+		}
+		if len(va) == 1 && len(vv) == 1 && va[0] == vv[0] && !guardsAgree {
+			r.Bad(key, at.Pos(), "same slice %s, different conditions: %s - an element/field the parser skipped was never validated although it can be read back", va[0], guardWhy)
+		} else if len(va) == 1 && len(vv) == 1 && va[0] == vv[0] {
+			r.OK(key, at.Pos(), "both are %s, handed out under the same conditions", va[0])
 		} else {
 			r.Bad(key, at.Pos(), "%s validates {%s} but %s opens {%s} for the same index: an element/field the parser accepted is a different byte range when read back", pair.parser, strings.Join(vv, " | "), pair.accessor, strings.Join(va, " | "))
 		}
